@@ -309,3 +309,16 @@ pub mod consts {
                   4 => &a::P_TIMES_16_LO as *const _ as *const u8, _ => &a::P_TIMES_16_HI as *const _ as *const u8 }
     }
 }
+
+// ------------------------------------------------------------------ helpers for harnesses in the dependent crates
+pub fn point_from_tags(a: u64, b: u64) -> crate::edwards::EdwardsPoint {
+    let mut p = crate::edwards::EdwardsPoint::default();
+    #[cfg(curve25519_dalek_bits = "64")] { p.X.0[0] = a; p.X.0[1] = b; }
+    #[cfg(curve25519_dalek_bits = "32")] { p.X.0[0] = a as u32; p.X.0[1] = (a >> 32) as u32; p.X.0[2] = b as u32; p.X.0[3] = (b >> 32) as u32; }
+    p
+}
+pub fn point_tags(p: &crate::edwards::EdwardsPoint) -> (u64, u64) {
+    #[cfg(curve25519_dalek_bits = "64")] { (p.X.0[0], p.X.0[1]) }
+    #[cfg(curve25519_dalek_bits = "32")] { ((p.X.0[0] as u64) | ((p.X.0[1] as u64) << 32), (p.X.0[2] as u64) | ((p.X.0[3] as u64) << 32)) }
+}
+pub fn scalar_raw(bytes: [u8; 32]) -> crate::scalar::Scalar { crate::scalar::Scalar { bytes } }
